@@ -737,3 +737,327 @@ TWINS += [
         length = None
 ''')]},
 ]
+
+# ---- round 3: loops moved into generator helpers, lists kept in a table indexed by a truth value ---------------------
+PE_BODY = '''    strong = []
+    weak = []
+    end = len(value)
+    pos = 0
+    while pos < end:
+        match = _etag_re.match(value, pos)
+        if match is None:
+            break
+''' + ETAG_LOOP + '''        pos = match.end()
+    return ds.ETags(strong, weak)
+'''
+PE_GEN = '''
+
+def _iter_etag_groups(value: str) -> t.Iterator[tuple[str | None, ...]]:
+    pos = 0
+    end = len(value)
+    while pos < end:
+        match = _etag_re.match(value, pos)
+        if match is None:
+            break
+        yield match.groups()
+        pos = match.end()
+'''
+
+
+def _pe_table(table: str, select: str, strong: str, weak: str, star: str = "raw", kept: str = "quoted or raw") -> list:
+    return [(H, PE_BODY, f'''    tags = {table}
+    for is_weak, quoted, raw in _iter_etag_groups(value):
+        if {star} == "*":
+            return ds.ETags(star_tag=True)
+        tags[{select}].append({kept})
+    return ds.ETags({strong}, {weak})
+''' + PE_GEN)]
+
+
+def _pe_comprehensions(weak_item: str) -> list:
+    return [(H, PE_BODY, f'''    parts = list(_iter_etag_groups(value))
+    if any(raw == "*" for _, _, raw in parts):
+        return ds.ETags(star_tag=True)
+    strong = [quoted or raw for is_weak, quoted, raw in parts if not is_weak]
+    weak = [{weak_item} for is_weak, quoted, raw in parts if is_weak]
+    return ds.ETags(strong, weak)
+''' + PE_GEN)]
+
+
+def _pe_classifying(kept: str) -> list:
+    return [(H, PE_BODY, f'''    strong = []
+    weak = []
+    for star, weak_tag, tag in _iter_etag_items(value):
+        if star:
+            return ds.ETags(star_tag=True)
+        (weak if weak_tag else strong).append(tag)
+    return ds.ETags(strong, weak)
+
+
+def _iter_etag_items(value: str) -> t.Iterator[tuple[bool, bool, str | None]]:
+    pos = 0
+    while pos < len(value):
+        match = _etag_re.match(value, pos)
+        if match is None:
+            return
+        is_weak, quoted, raw = match.groups()
+        if raw == "*":
+            yield True, False, None
+            return
+        yield False, bool(is_weak), {kept}
+        pos = match.end()
+''')]
+
+
+def _list_gen(caller: str, strip: str = "item[1:-1]") -> list:
+    return [(H, LIST_BODY, caller + f'''
+
+def _iter_list_items(value: str) -> t.Iterator[str]:
+    for item in _parse_list_header(value):
+        if len(item) >= 2 and item[0] == item[-1] == '"':
+            item = {strip}
+
+        yield item
+''')]
+
+
+RANGE_LOOP = '''    ranges = []
+    last_end = 0
+    units, rng = value.split("=", 1)
+    units = units.strip().lower()
+
+    for item in rng.split(","):
+        item = item.strip()
+        if "-" not in item:
+            return None
+        if item.startswith("-"):
+            if last_end < 0:
+                return None
+            try:
+                begin = _plain_int(item)
+            except ValueError:
+                return None
+            end = None
+            last_end = -1
+        elif "-" in item:
+            begin_str, end_str = item.split("-", 1)
+            begin_str = begin_str.strip()
+            end_str = end_str.strip()
+
+            try:
+                begin = _plain_int(begin_str)
+            except ValueError:
+                return None
+
+            if begin < last_end or last_end < 0:
+                return None
+            if end_str:
+                try:
+                    end = _plain_int(end_str) + 1
+                except ValueError:
+                    return None
+
+                if begin >= end:
+                    return None
+            else:
+                end = None
+            last_end = end if end is not None else -1
+        ranges.append((begin, end))
+
+    return ds.Range(units, ranges)
+'''
+
+
+def _range_gen_raising(stop: str = "_plain_int(end_str) + 1", order: str = "begin < last_end") -> list:
+    return [(H, RANGE_LOOP, f'''    units, rng = value.split("=", 1)
+    units = units.strip().lower()
+
+    try:
+        ranges = list(_iter_range_specs(rng))
+    except ValueError:
+        return None
+
+    return ds.Range(units, ranges)
+
+
+def _iter_range_specs(rng: str) -> t.Iterator[tuple[int, int | None]]:
+    last_end = 0
+
+    for item in rng.split(","):
+        item = item.strip()
+        if "-" not in item:
+            raise ValueError(item)
+        if item.startswith("-"):
+            if last_end < 0:
+                raise ValueError(item)
+            begin = _plain_int(item)
+            end = None
+            last_end = -1
+        else:
+            begin_str, end_str = item.split("-", 1)
+            begin = _plain_int(begin_str.strip())
+            end_str = end_str.strip()
+
+            if {order} or last_end < 0:
+                raise ValueError(item)
+            if end_str:
+                end = {stop}
+
+                if begin >= end:
+                    raise ValueError(item)
+            else:
+                end = None
+            last_end = end if end is not None else -1
+        yield begin, end
+''')]
+
+
+def _range_gen_sentinel(stop: str = "_plain_int(end_str) + 1") -> list:
+    gen = RANGE_LOOP.split('    for item in rng.split(","):\n')[1].rsplit("    return ds.Range(units, ranges)\n", 1)[0]
+    gen = gen.replace("return None\n", "yield None\nRETURN\n").replace("        ranges.append((begin, end))\n", "        yield begin, end\n").replace("_plain_int(end_str) + 1", stop)
+    lines = []
+    for ln in gen.splitlines():
+        if ln == "RETURN":
+            lines.append(" " * (len(lines[-1]) - len(lines[-1].lstrip())) + "return")
+        else:
+            lines.append(ln)
+    return [(H, RANGE_LOOP, '''    ranges = []
+    units, rng = value.split("=", 1)
+    units = units.strip().lower()
+
+    for spec in _iter_range_specs(rng):
+        if spec is None:
+            return None
+        ranges.append(spec)
+
+    return ds.Range(units, ranges)
+
+
+def _iter_range_specs(rng: str) -> t.Iterator[tuple[int, int | None] | None]:
+    last_end = 0
+
+    for item in rng.split(","):
+''' + "\n".join(lines) + "\n")]
+
+
+OPT_COLLECT = '''    parts: list[tuple[str, str]] = []
+
+    while True:
+'''
+
+
+def _opt_scanner_gen(unquote: str | None = None, advance: str | None = None) -> list:
+    """the scanner loop of parse_options_header as a generator helper that the value loop consumes"""
+    src_scan = OPT_SCAN_FULL
+    gen = src_scan.replace("parts.append((pk, m.group()))", "yield pk, m.group()").replace("parts.append((pk, rest[: pos + 1]))", "yield pk, rest[: pos + 1]")
+    if advance is not None:
+        gen = gen.replace("rest = rest[end + 1 :].lstrip()", advance)
+    edits = [(H, OPT_COLLECT + OPT_SCAN_FULL, ""), (H, "    for pk, pv in parts:\n", "    for pk, pv in _scan_parameters(rest):\n"),
+             (H, "    return value, options\n", "    return value, options\n\n\ndef _scan_parameters(rest: str) -> t.Iterator[tuple[str, str]]:\n    while True:\n" + gen)]
+    if unquote is not None:
+        edits.append((H, OPT_UNQ, unquote))
+    return edits
+
+
+OPT_SCAN_FULL = '''        if (m := _parameter_key_re.match(rest)) is not None:
+            pk = m.group(1).lower()
+            rest = rest[m.end() :]
+
+            # Value may be a token.
+            if (m := _parameter_token_value_re.match(rest)) is not None:
+                parts.append((pk, m.group()))
+
+            # Value may be a quoted string, find the closing quote.
+            elif rest[:1] == '"':
+                pos = 1
+                length = len(rest)
+
+                while pos < length:
+                    if rest[pos : pos + 2] in {"\\\\\\\\", '\\\\"'}:
+                        # Consume escaped slashes and quotes.
+                        pos += 2
+                    elif rest[pos] == '"':
+                        # Stop at an unescaped quote.
+                        parts.append((pk, rest[: pos + 1]))
+                        rest = rest[pos + 1 :]
+                        break
+                    else:
+                        # Consume any other character.
+                        pos += 1
+
+        # Find the next section delimited by `;`, if any.
+        if (end := rest.find(";")) == -1:
+            break
+
+        rest = rest[end + 1 :].lstrip()
+
+'''
+
+
+def _opt_segments_gen(plain: str = 'f"{key}={quote_header_value(value)}"') -> list:
+    return [(H, OPT_LOOP.join(["    segments = []\n\n    if header is not None:\n        segments.append(header)\n\n", ""]), f'''    return "; ".join(_iter_option_segments(header, options))
+
+
+def _iter_option_segments(header: str | None, options: t.Mapping[str, t.Any]) -> t.Iterator[str]:
+    if header is not None:
+        yield header
+
+    for key, value in options.items():
+        if value is None:
+            continue
+
+        if key[-1] == "*":
+            yield f"{{key}}={{value}}"
+        else:
+            yield {plain}
+''')]
+
+
+TWINS += [
+    {"name": "shape:etags-generator-dict-table", "edits": _pe_table("{False: [], True: []}", "bool(is_weak)", "tags[False]", "tags[True]")},
+    {"name": "shape:etags-generator-pair-table-is-not-none", "edits": _pe_table("([], [])", "is_weak is not None", "tags[0]", "tags[1]", kept="quoted if quoted else raw")},
+    {"name": "shape:etags-generator-list-then-comprehensions", "edits": _pe_comprehensions("quoted or raw")},
+    {"name": "shape:etags-classifying-generator", "edits": _pe_classifying("quoted or raw")},
+    {"name": "shape:list-parser-list-of-generator", "edits": _list_gen("    return list(_iter_list_items(value))\n")},
+    {"name": "shape:list-parser-comprehension-over-generator", "edits": _list_gen("    return [entry for entry in _iter_list_items(value)]\n")},
+    {"name": "shape:list-parser-loop-over-generator", "edits": _list_gen("    result = []\n\n    for entry in _iter_list_items(value):\n        result.append(entry)\n\n    return result\n")},
+    {"name": "shape:range-parser-generator-raising", "edits": _range_gen_raising()},
+    {"name": "shape:range-parser-generator-none-sentinel", "edits": _range_gen_sentinel()},
+    {"name": "shape:options-scanner-generator", "edits": _opt_scanner_gen()},
+    {"name": "shape:options-writer-generator", "edits": _opt_segments_gen()},
+]
+MUTANTS += [
+    {"name": "shape:etags-generator-dict-table-selector-inverted", "expect": "R6.5", "edits": _pe_table("{False: [], True: []}", "not is_weak", "tags[False]", "tags[True]")},
+    {"name": "shape:etags-generator-dict-table-lists-swapped", "expect": "R6.5", "edits": _pe_table("{False: [], True: []}", "bool(is_weak)", "tags[True]", "tags[False]")},
+    {"name": "shape:etags-generator-star-on-kept-text", "expect": "R6.5", "edits": _pe_table("{False: [], True: []}", "bool(is_weak)", "tags[False]", "tags[True]", star="(quoted or raw)")},
+    {"name": "shape:etags-generator-comprehension-weak-keeps-raw-only", "expect": "R6.5", "edits": _pe_comprehensions("raw")},
+    {"name": "shape:etags-classifying-generator-prefers-raw", "expect": "R6.5", "edits": _pe_classifying("raw or quoted")},
+    {"name": "shape:list-parser-generator-strips-one-side", "expect": "R6.2", "edits": _list_gen("    return list(_iter_list_items(value))\n", strip="item[1:]")},
+    {"name": "shape:range-parser-generator-stop-inclusive", "expect": "R6.4", "edits": _range_gen_raising(stop="_plain_int(end_str)")},
+    {"name": "shape:range-parser-generator-rejects-adjacent", "expect": "R6.8", "edits": _range_gen_raising(order="begin <= last_end")},
+    {"name": "shape:range-parser-generator-sentinel-stop-inclusive", "expect": "R6.8", "edits": _range_gen_sentinel(stop="_plain_int(end_str)")},
+    {"name": "shape:options-scanner-generator-no-unescape", "expect": "R6.2", "edits": _opt_scanner_gen(unquote=OPT_UNQ.replace('.replace("\\\\\\\\", "\\\\")', ""))},
+    {"name": "shape:options-scanner-generator-advance-no-lstrip", "expect": "R6.7", "edits": _opt_scanner_gen(advance="rest = rest[end + 1 :]")},
+    {"name": "shape:options-writer-generator-unquoted", "expect": "R6.5", "edits": _opt_segments_gen(plain='f"{key}={value}"')},
+]
+
+
+def _quote_gen(test: str) -> list:
+    return [(H, Q_TAIL.split("\n\n")[-1], f'''    return '"' + "".join(_iter_escaped(value_str)) + '"'
+
+
+def _iter_escaped(text: str) -> t.Iterator[str]:
+    for ch in text:
+        if {test}:
+            yield "\\\\"
+        yield ch
+''')]
+
+
+TWINS += [
+    {"name": "shape:quote-escaping-generator-two-yields", "edits": _quote_gen('ch == "\\\\" or ch == \'"\'')},
+    {"name": "shape:dict-parser-dict-of-generator", "edits": [(H, "        if not has_value:\n            result[key] = None\n            continue\n", "        if not has_value:\n            result.update(dict(_none_entry(key)))\n            continue\n"), (H, "def parse_dict_header(value: str)", "def _none_entry(key: str) -> t.Iterator[tuple[str, None]]:\n    yield key, None\n\n\ndef parse_dict_header(value: str)")]},
+]
+MUTANTS += [
+    {"name": "shape:quote-escaping-generator-forgets-backslash", "expect": "R6.2", "edits": _quote_gen('ch == \'"\'')},
+]
